@@ -8,6 +8,83 @@ Python's sets may produce).
 -/
 namespace Holpy.C15
 
+/-! ### `solve_cnf` -/
+
+/-- a satisfiable instance (with a repeated literal) and an unsatisfiable one, used below -/
+def exSat : CNF := [[(0,true),(1,true)],[(0,false),(2,true),(2,true)],[(1,false),(2,false)],[(0,false),(1,false)]]
+def exUnsat : CNF :=
+  [[(0,true),(1,true)],[(0,false),(1,true)],[(0,true),(1,false)],[(0,false),(1,false)]]
+
+theorem exSat_run : solveCnf 100 exSat ⟨[2,1,0],[]⟩ = .sat [(2, true), (1, false), (0, true)] := by
+  rfl
+theorem exUnsat_run : solveCnf 100 exUnsat ⟨[0,1],[]⟩ =
+    .unsat (exUnsat ++ [[(0, false)], []]) [(4, [3, 1]), (5, [2, 4, 0, 4])] := by rfl
+
+/-- `solve_cnf` answering `'satisfiable', a`: `is_solution(cnf, a)` holds (for the input as given,
+before repeated literals are removed). -/
+theorem sat_sound {fuel : Nat} {cnf : CNF} {o : Oracle} {a : List (Nat × Bool)}
+    (h : solveCnf fuel cnf o = .sat a) : isSolution cnf a = true :=
+  (solveCnf_spec fuel cnf o).1 a h
+
+example : isSolution exSat [(2, true), (1, false), (0, true)] = true := sat_sound exSat_run
+
+/-- ... hence some total assignment satisfies every clause. -/
+theorem sat_sound_sem {fuel : Nat} {cnf : CNF} {o : Oracle} {a : List (Nat × Bool)}
+    (h : solveCnf fuel cnf o = .sat a) : ∃ σ, Sat σ cnf :=
+  ⟨asgFun a, sat_of_isSolution (sat_sound h)⟩
+
+example : ∃ σ, Sat σ exSat := sat_sound_sem exSat_run
+
+/-- One checked resolution step (what `resolution(c, d, name)` computes when `c`, `d` clash on
+`name` only in one polarity each) is sound: the resolvent holds wherever both premises hold. -/
+theorem resolveStep_sound {c d r : Clause} {σ : Nat → Bool} (h : resolveStep c d = some r)
+    (hc : ∃ l ∈ c, σ l.1 = l.2) (hd : ∃ l ∈ d, σ l.1 = l.2) : ∃ l ∈ r, σ l.1 = l.2 :=
+  resolveStep_entails h hc hd
+
+example : resolveStep [(0,true),(1,false)] [(0,false),(2,true)] = some [(1,false),(2,true)] := by
+  decide
+
+/-- The trace checker is sound: a clause list whose learned part replays by resolution from
+earlier clauses and ends in the empty clause certifies that the first `n0` clauses are
+unsatisfiable. -/
+theorem checkTrace_sound {c : CNF} {n0 : Nat} {ps : List (Nat × List Nat)}
+    (h : checkTrace c n0 ps = true) : ¬ ∃ σ, Sat σ (c.take n0) :=
+  checkTrace_unsat h
+
+example : ¬ ∃ σ, Sat σ exUnsat := by
+  have h := checkTrace_sound (c := exUnsat ++ [[(0, false)], []]) (n0 := 4)
+    (ps := [(4, [3, 1]), (5, [2, 4, 0, 4])]) (by decide)
+  exact h
+
+/-- `solve_cnf` answering `'unsatisfiable'`: no assignment satisfies the input. -/
+theorem unsat_sound {fuel : Nat} {cnf : CNF} {o : Oracle} {c' : CNF} {ps : List (Nat × List Nat)}
+    (h : solveCnf fuel cnf o = .unsat c' ps) : ¬ ∃ σ, Sat σ cnf :=
+  ((solveCnf_spec fuel cnf o).2 c' ps h).1
+
+example : ¬ ∃ σ, Sat σ exUnsat := unsat_sound exUnsat_run
+
+/-- `solve_cnf` answering `'unsatisfiable', proofs`: the final clause list starts with the
+(de-duplicated) input, and `proofs` passes the trace checker against it — ids consecutive, every
+proof cites earlier clauses only, each learned clause is what folding `resolution` over the cited
+clauses gives (pivot = the clashing variable, occurring in one polarity on each side), and the last
+learned clause is empty. -/
+theorem trace_valid {fuel : Nat} {cnf : CNF} {o : Oracle} {c' : CNF} {ps : List (Nat × List Nat)}
+    (h : solveCnf fuel cnf o = .unsat c' ps) :
+    checkTrace c' cnf.length ps = true ∧ c'.take cnf.length = cnf.map dedup :=
+  ((solveCnf_spec fuel cnf o).2 c' ps h).2
+
+example : checkTrace (exUnsat ++ [[(0, false)], []]) 4 [(4, [3, 1]), (5, [2, 4, 0, 4])] = true :=
+  (trace_valid exUnsat_run).1
+
+/-- The verdict agrees with exhaustive search, whichever it is. -/
+theorem verdict_correct {fuel : Nat} {cnf : CNF} {o : Oracle} :
+    (∀ a, solveCnf fuel cnf o = .sat a → ∃ σ, Sat σ cnf) ∧
+    (∀ c' ps, solveCnf fuel cnf o = .unsat c' ps → ¬ ∃ σ, Sat σ cnf) :=
+  ⟨fun _ h => sat_sound_sem h, fun _ _ h => unsat_sound h⟩
+
+example : (∃ σ, Sat σ exSat) ∧ ¬ ∃ σ, Sat σ exUnsat :=
+  ⟨verdict_correct.1 _ exSat_run, verdict_correct.2 _ _ exUnsat_run⟩
+
 /-! ### Tseitin rules, regenerated from `library/sat.json` on every run (Gen.lean) -/
 
 theorem encode_conj_valid : ∀ l r1 r2 : Bool, Gen.encode_conj l r1 r2 = true := by decide
